@@ -176,6 +176,39 @@ the header), a builder that becomes `'static` by copying only part of its state,
 with bounds computed for the old representation, `Clone` of a value that shares what it should copy or copies what it should share. The
 borrowed path the tests use must stay byte-for-byte as before.""",
  ],
+ "r19": [
+"""Aim for WORD-AT-A-TIME / BATCHED processing with a remainder loop: code rewritten to handle 4, 8 or 16 bytes (or 2, 4 entries) per
+step - `chunks_exact(N)` plus `remainder()`, an unrolled loop with a tail, `u32`/`u64::from_be_bytes` over several fields at once, a
+fast path for whole words or for lists whose length is a multiple of the batch, `copy_from_slice` of a whole block instead of field by
+field - where the TAIL, the odd-sized case or the block boundary is handled slightly differently from the main loop. Sizes and counts
+that are a multiple of the batch (what the tests use) must behave bit-for-bit as before.""",
+"""Aim for a DATA-STRUCTURE SWAP: a collection or representation replaced by another for good-looking reasons (allocation, determinism,
+speed) - `BTreeSet`/`BTreeMap`/`HashMap` replaced by a sorted or unsorted `Vec` with `binary_search`, `dedup`, `retain`, `sort_unstable_by_key`;
+a `Vec` replaced by a fixed array plus a length, or by an iterator chain; `Option<u8>` by a sentinel; a `(start, len)` pair by a `Range`; a
+`u32` field split into or merged from bit-fields; a `String`/`&str` by bytes - where one of the operations on the new representation is
+not equivalent to the old one for some contents (duplicates, order of insertion, capacity exceeded, the sentinel being legal data, wrap-around).
+Unremarkable contents must behave exactly as before.""",
+"""Aim for TWO SOURCES OF TRUTH that agree on every ordinary packet: the same quantity is available in two places (header length field vs
+slice length, count field vs number of entries that fit, padding bit vs last byte, an item's length octet vs the distance to the next item,
+`calculate_size()` vs what `write_into` advances, `MIN_PACKET_LEN` vs literal offsets, the FCI length vs the packet length minus header and
+padding), and your change makes ONE consumer use the other source - or derive its value in a new way - so that it differs only where the two
+sources legitimately differ or where one of them is not validated on that path. Everything the tests use must stay as before.""",
+ ],
+ "r20": [
+"""Aim for a PORTABILITY or OVERFLOW-HARDENING change: making the crate "safe on 32-bit / 16-bit targets" or "overflow-proof" by moving length
+and offset arithmetic to `u32`/`u16`, `checked_*`/`saturating_*`/`try_from(..).unwrap_or(MAX)`, pre-clamping inputs, or rejecting sizes
+"that cannot occur" - where the new arithmetic differs from the old for large but LEGAL values on an ordinary 64-bit build (packets near 65536
+words, FCI near the maximum, 255-byte texts with 31 sources, sums that the old code carried in `usize`). Values of ordinary size must behave
+bit-for-bit as before.""",
+"""Aim for STATE LEFT BEHIND: something that persists between two calls on the same object and that the second call wrongly trusts - a builder
+that is sized, written, then modified and written again; an iterator that is cloned, partially advanced, or asked again after `None` / after an
+`Err`; a value computed lazily on first use and never invalidated; a `&mut self` method that leaves a half-updated field when it returns early;
+`Default`/`Clone` of an object in a non-initial state. A fresh object used once, front to back (what the tests do), must behave exactly as before.""",
+"""Aim for a DOC-DRIVEN change: "make the code do what the comment / doc string / RFC sentence says" where that sentence is slightly inaccurate,
+ambiguous, or about a different quantity (bytes vs words, including vs excluding the header, the padding, the terminating NUL, the length
+octet; 0-based vs 1-based; inclusive vs exclusive) - so the commit reads as a correctness fix, cites the text, and is wrong for the cases where
+the two readings differ. The cases the tests use must be ones where both readings agree.""",
+ ],
 }
 
 
